@@ -48,6 +48,10 @@ type C06Scenario struct {
 	Server refsmtpd.Config `json:"server"`
 	Sched  uint64          `json:"sched"`
 	DSN    bool            `json:"dsn,omitempty"` // the Client asks for delivery status notifications
+	// SendmailFirst: before the render and the send the caller tries to hand each message to a
+	// local sendmail binary that does not exist ("missing"), or with a context that is already
+	// over ("expired"); the attempt fails and the caller falls back to SMTP.
+	SendmailFirst string `json:"sendmailFirst,omitempty"`
 }
 
 type c06 struct{}
@@ -77,7 +81,7 @@ func c06Addr(r *sim.Rand, tok, field string, n int) AddrSpec {
 		// quoted-string local parts with the two characters that need a quoted-pair
 		local = fmt.Sprintf("%s%s%s-%d", field, sim.Pick(r, []string{`\\`, `\\x`, `"`, `\\"`, `a\\b c`}), tok, n)
 	}
-	return AddrSpec{Name: sim.Pick(r, c06Names), Local: local, Domain: sim.Pick(r, []string{"dest.example", "other.example", "sub.dest.example"})}
+	return AddrSpec{Name: sim.Pick(r, c06Names), Local: local, Domain: sim.Pick(r, []string{"dest.example", "other.example", "sub.dest.example", "dest.example", "other.example", "Mixed.Case.Example", "UPPER.EXAMPLE"})}
 }
 
 func (p *c06) Gen(seed uint64, i int, tier string) (any, bool) {
@@ -151,6 +155,19 @@ func (p *c06) Gen(seed uint64, i int, tier string) (any, bool) {
 				if r.Chance(1, 5) && len(op.Addrs) > 0 && field != "bcc" {
 					op.Addrs = append(op.Addrs, op.Addrs[0]) // the same address twice
 				}
+				if r.Chance(1, 6) && (op.Kind == "add" || op.Kind == "set") && len(op.Addrs) > 0 {
+					// an address that an earlier call put into another field (somebody on To who
+					// also gets a blind copy; a Cc who is on To as well): one RCPT per occurrence
+					var pool []AddrSpec
+					for _, prev := range msg.Ops {
+						if (prev.Field == "to" || prev.Field == "cc" || prev.Field == "bcc") && prev.Field != field && (prev.Kind == "set" || prev.Kind == "add") && len(prev.Junk) == 0 {
+							pool = append(pool, prev.Addrs...)
+						}
+					}
+					if len(pool) > 0 {
+						op.Addrs[len(op.Addrs)-1] = pool[r.Intn(len(pool))]
+					}
+				}
 			}
 			if r.Chance(1, 6) && (op.Kind == "set" || op.Kind == "ignoreinvalid" || op.Kind == "add" || op.Kind == "fromstring") {
 				op.Junk = []string{sim.Pick(r, []string{"not an address", "a@", "@b.example", "<>", "x y z", "a@b@c", ""})}
@@ -158,6 +175,9 @@ func (p *c06) Gen(seed uint64, i int, tier string) (any, bool) {
 			msg.Ops = append(msg.Ops, op)
 		}
 		sc.Msgs = append(sc.Msgs, msg)
+	}
+	if r.Chance(1, 8) {
+		sc.SendmailFirst = sim.Pick(r, []string{"missing", "expired"})
 	}
 	if r.Chance(1, 3) {
 		sc.Server.Rules = []refsmtpd.Rule{{Verb: "RCPT", Nth: 1 + r.Intn(3), Action: refsmtpd.Action{Code: sim.Pick(r, []int{450, 550}), Text: "recipient refused"}}}
@@ -414,6 +434,17 @@ func (p *c06) Exec(t *testing.T, scAny any) Outcome {
 					_ = oi
 				}
 				models[mi], msgs[mi] = md, m
+				if sc.SendmailFirst != "" {
+					ctx, cancel := context.WithCancel(context.Background())
+					if sc.SendmailFirst == "expired" {
+						cancel()
+					}
+					if err := m.WriteToSendmailWithContext(ctx, "/nonexistent/verif/sendmail"); err == nil {
+						infra = "hand-over to a sendmail binary that does not exist succeeded"
+					}
+					cancel()
+					out.stat("probe.sendmail-handover-failed-first", 1)
+				}
 				if data, err := Render(m); err == nil {
 					renders[mi] = data
 				}
@@ -577,8 +608,23 @@ func isASCII(s string) bool {
 
 // judgeRender checks the header block of a rendering against the model.
 func (p *c06) judgeRender(out *Outcome, tok string, md *c06Model, data []byte, where string) {
+	visible := map[string]bool{}
+	for _, a := range append(append([]AddrSpec(nil), md.to...), md.cc...) {
+		visible[a.mailbox()] = true
+	}
 	for _, b := range md.bcc {
-		if bytes.Contains(data, []byte(b.mailbox())) || bytes.Contains(data, []byte(b.Local)) {
+		if visible[b.mailbox()] {
+			continue // the same mailbox is on To or Cc as well, where it is meant to be seen
+		}
+		// the bare local part is searched too (a quoted or encoded form of the address), unless
+		// it is a substring of an address that is meant to be seen
+		shadowed := false
+		for v := range visible {
+			if strings.Contains(v, b.Local) {
+				shadowed = true
+			}
+		}
+		if bytes.Contains(data, []byte(b.mailbox())) || (!shadowed && bytes.Contains(data, []byte(b.Local))) {
 			out.violate("C06:bcc-visible", "message %s (%s): the Bcc address %q occurs in the rendered message", tok, where, b.mailbox())
 		}
 	}
@@ -698,7 +744,7 @@ func (p *c06) Shrink(scAny any) []any {
 
 func (p *c06) Info() PropInfo {
 	return PropInfo{
-		Rule: "seeded search: 1..2 messages, each built by a sender call followed by 2..8 address-setting calls drawn from {To/Cc/Bcc: set (0..3 addresses), AddX, AddXFormat, XIgnoreInvalid, XFromString; From/EnvelopeFrom/ReplyTo: plain and Format variants, FromIgnoreInvalid} with generated addresses (unique per field, some local parts needing quoting or UTF-8, display names plain / with comma / non-ASCII / with parentheses / very long / with runs of blanks / with a TAB, duplicates within a list, invalid inputs mixed in), applied to the Msg and to the reference model; a quarter of the messages are built on a Msg value that carried another mail before and was Reset(); FromString lists partly with an invalid field; the envelope sender taken back; then a direct render and DialAndSend under no fault or a refused RCPT (450/550) optionally plus a refused MAIL; non-trivial = at least one message is sendable; distinct = distinct (call sequence, reply script, seed)",
+		Rule: "seeded search: 1..2 messages, each built by a sender call followed by 2..8 address-setting calls drawn from {To/Cc/Bcc: set (0..3 addresses), AddX, AddXFormat, XIgnoreInvalid, XFromString; From/EnvelopeFrom/ReplyTo: plain and Format variants, FromIgnoreInvalid} with generated addresses (unique per field, some local parts needing quoting or UTF-8, display names plain / with comma / non-ASCII / with parentheses / very long / with runs of blanks / with a TAB, duplicates within a list, invalid inputs mixed in), applied to the Msg and to the reference model; a quarter of the messages are built on a Msg value that carried another mail before and was Reset(); FromString lists partly with an invalid field; the envelope sender taken back; an address that an earlier call put into another field (one RCPT per occurrence); domains with upper-case letters; an eighth of the scenarios first try a hand-over to a sendmail binary that does not exist (or with a context that is over); then a direct render and DialAndSend under no fault or a refused RCPT (450/550) optionally plus a refused MAIL; non-trivial = at least one message is sendable; distinct = distinct (call sequence, reply script, seed)",
 		Assumptions: []string{"for the IgnoreInvalid setters the survivors are read back from the getters; the model demands only that they are a subsequence of the inputs and that no pure-ASCII valid input is dropped",
 			"XFromString is exercised with bare addr-specs only (its comma-separated format cannot carry display names with commas)",
 			"Bcc addresses are generated unique to the Bcc list, so any occurrence of one in the bytes is a leak"},
